@@ -2,14 +2,18 @@
 
 package main
 
-// Child side of the multi-run suite (property C08).  scenario.Runner starts every run on a
-// bare goroutine, so a panic inside a run cannot be recovered by the caller and terminates
-// the process: every whole-scenario case is therefore executed in a CHILD PROCESS of the
-// harness binary (`harness multi-run-child -out DIR CASE.json`).  The child
+// Child side of the multi-run suite (property C08).  Every whole-scenario case is executed in a CHILD
+// PROCESS of the harness binary (`harness multi-run-child -out DIR CASE.json`): since the D26 repair
+// scenario.Runner recovers a panic of a run goroutine (Runner.go, doRun), but a mutant or a regression
+// of that repair terminates the process, the race detector reports per process, and the working
+// directory is process-global.  The child
 //   - writes the scenario's TOML text and builds the scenario through crem's OWN configuration
 //     path (config retrieval + ConfigInterpreter, exactly what cremexplorer's bootstrap does),
 //   - attaches one recording observer in FIRST position of the annealer's (shared) notifier,
-//   - calls Scenario.Run(),
+//   - walks the object graph of the configured annealer (the template every run clones: with it
+//     everything the runs can share) and records the content of every node,
+//   - calls Scenario.Run()  (or, for a `solo` case, Runner.run(i) for ONE run number),
+//   - re-reads the content of every recorded node: `written.json` lists the nodes that differ,
 // and leaves behind `events.log` (one line per recorded event, appended with a single write
 // so that it survives the death of the process), `child.json` (what Run() returned) and the
 // scenario's own output files.  The parent derives the canonical observation from those.
@@ -18,21 +22,29 @@ import (
 	"encoding/json"
 	"errors"
 	"fmt"
+	"hash/fnv"
+	"math/rand"
 	"os"
 	"path/filepath"
+	"reflect"
 	"runtime"
+	"sort"
 	"strconv"
 	"strings"
 	"sync"
 	"sync/atomic"
 	"time"
+	"unsafe"
 
 	cfgdata "github.com/LindsayBradford/crem/cmd/cremexplorer/config/data"
 	cfginterp "github.com/LindsayBradford/crem/cmd/cremexplorer/config/interpreter"
 	"github.com/LindsayBradford/crem/internal/pkg/annealing"
 	"github.com/LindsayBradford/crem/internal/pkg/annealing/explorer"
+	"github.com/LindsayBradford/crem/internal/pkg/model"
 	marchive "github.com/LindsayBradford/crem/internal/pkg/model/archive"
 	"github.com/LindsayBradford/crem/internal/pkg/observer"
+	cremrand "github.com/LindsayBradford/crem/internal/pkg/rand"
+	"github.com/LindsayBradford/crem/internal/pkg/scenario"
 )
 
 func init() { register("multi-run-child", multiRunChild) }
@@ -62,6 +74,16 @@ type mrCase struct {
 	Strace     bool   `json:"strace"`  // parent side: execute the child under strace -f -e trace=chdir
 	// CheckInvariant: Scenario.Reporting.CheckingLoopInvariant = true (single-objective annealer only)
 	CheckInvariant bool `json:"check_invariant"`
+	// Site of the injected failure (Kind == fault): clone (Runner.run before Anneal: assignNewRunId) |
+	// step (TryRandomChange of iteration At) | finish (a FinishedAnnealing observer placed before the saver)
+	Site string `json:"site,omitempty"`
+	// Detail: Scenario.OutputLevel = "Detail" (every solution is also written to a file of its own)
+	Detail bool `json:"detail,omitempty"`
+	// Seeded: every random number generator of a run is re-seeded from the run's id when the run's explorer
+	// has been initialised (Kind == seeded); Solo > 0: execute only run number Solo, through Runner.run
+	Seeded bool `json:"seeded,omitempty"`
+	Solo   int  `json:"solo,omitempty"`
+	Group  int  `json:"group,omitempty"` // parent side: the seeded cases of one comparison
 }
 
 const (
@@ -73,6 +95,9 @@ func (k mrCase) toml() string {
 	var sb strings.Builder
 	fmt.Fprintf(&sb, "[Scenario]\nName = %q\nRunNumber = %d\nMaximumConcurrentRunNumber = %d\nOutputPath = %q\nOutputType = %q\n",
 		k.Name, k.Runs, k.Conc, k.OutputPath, k.OutputType)
+	if k.Detail {
+		sb.WriteString("OutputLevel = \"Detail\"\n")
+	}
 	sb.WriteString("[Scenario.Reporting]\nReportEveryNumberOfIterations = 100\n")
 	if k.CheckInvariant {
 		sb.WriteString("CheckingLoopInvariant = true\n")
@@ -190,17 +215,26 @@ func (r *runRecorder) ObserveEvent(e observer.Event) {
 		if v, ok := e.Attribute("CurrentIteration").(uint64); ok {
 			it = strconv.FormatUint(v, 10)
 		}
-		pid, size := "-", "-"
+		pid, size, enc := "-", "-", "-"
 		if v, ok := e.Attribute("CompressedModel").(marchive.CompressedModelState); ok {
-			pid, size = v.Id(), "1"
+			pid, size, enc = v.Id(), "1", v.Encoding()
 		}
 		if v, ok := e.Attribute("ModelArchive").(marchive.NonDominanceModelArchive); ok {
 			pid, size = v.Id(), strconv.Itoa(v.Len())
+			// the member encodings, in archive order: what this run's own result file must hold
+			var encs []string
+			for _, m := range v.Archive() {
+				encs = append(encs, m.Encoding())
+			}
+			enc = strings.Join(encs, ",")
+			if len(encs) == 0 {
+				enc = "-"
+			}
 		}
 		r.mu.Lock()
 		r.inflight--
 		r.mu.Unlock()
-		line = fmt.Sprintf("F\tg=%d\tid=%s\tT=%s\titer=%s\tpayload=%s\tsize=%s", g, q(id), temp, it, q(pid), size)
+		line = fmt.Sprintf("F\tg=%d\tid=%s\tT=%s\titer=%s\tpayload=%s\tsize=%s\tenc=%s", g, q(id), temp, it, q(pid), size, enc)
 	default:
 		return
 	}
@@ -209,19 +243,25 @@ func (r *runRecorder) ObserveEvent(e observer.Event) {
 	r.mu.Unlock()
 }
 
-// ---------------------------------------------------------------- fault-injecting explorer
+// ---------------------------------------------------------------- fault-injecting / seeding explorer
 
 // faultExplorer wraps a real explorer.  Runner.assignNewRunId tells every clone's explorer its run
-// id ("name (i/N)"); the clone whose id is the designated run's panics in TryRandomChange of
-// iteration At.  Everything else is delegated to real crem code.
+// id ("name (i/N)").  Fault injection: the clone whose id is the designated run's panics at the chosen
+// site (clone: when Runner.run tells it its id, before Anneal(); step: in TryRandomChange of iteration
+// At).  Deterministic seeding: when the run's explorer has been initialised (Anneal() does that first),
+// every random number generator the clone reaches is replaced by one seeded from (run id, position in
+// a canonical traversal).  Everything else is delegated to real crem code.
 type faultExplorer struct {
 	explorer.Explorer
 	clones     *int64 // DeepClone() calls, whole family
+	armed      *int32 // set once the wrapper has been installed (SetSolutionExplorer itself calls SetId)
 	runID      string
 	designated string
+	site       string
 	at         int
 	asError    bool
 	iter       int
+	seeded     bool
 }
 
 func (f *faultExplorer) DeepClone() explorer.Explorer {
@@ -232,20 +272,161 @@ func (f *faultExplorer) DeepClone() explorer.Explorer {
 	return &c
 }
 
+func (f *faultExplorer) injected() {
+	if f.asError {
+		panic(errors.New("injected failure of one run"))
+	}
+	panic("injected failure of one run")
+}
+
 func (f *faultExplorer) SetId(id string) {
 	f.runID = id
 	f.Explorer.SetId(id)
+	if f.site == "clone" && atomic.LoadInt32(f.armed) == 1 && id == f.designated {
+		f.injected()
+	}
+}
+
+func (f *faultExplorer) Initialise() {
+	f.Explorer.Initialise()
+	if f.seeded {
+		// Initialise() has drawn the run's random initial state from generators it seeded from the clock a
+		// moment ago: that state is discarded (as-is = no action active: crem's own Initialise(AsIs)), every
+		// generator of the run is seeded from the run id, and the initial state is drawn again by crem's own
+		// Randomize()
+		f.Explorer.Model().Initialise(model.AsIs)
+		n := reseedAll(f.Explorer, f.runID)
+		f.Explorer.Model().Randomize()
+		if os.Getenv("VERIF_C08_DEBUG") != "" {
+			fmt.Fprintf(os.Stderr, "reseeded %d generators of %q\n", n, f.runID)
+		}
+	}
 }
 
 func (f *faultExplorer) TryRandomChange() {
 	f.iter++
-	if f.runID == f.designated && f.iter == f.at {
-		if f.asError {
+	if f.site == "step" && f.runID == f.designated && f.iter == f.at {
+		f.injected()
+	}
+	f.Explorer.TryRandomChange()
+}
+
+// finishPanicker is a FinishedAnnealing observer placed right after the recorder and BEFORE the saver:
+// it panics for the designated run (a failing observer of the finish event: the run has completed its
+// iterations, its result is never saved).
+type finishPanicker struct {
+	designated string
+	asError    bool
+}
+
+func (p *finishPanicker) ObserveEvent(e observer.Event) {
+	if e.EventType != observer.FinishedAnnealing {
+		return
+	}
+	// the run is identified by the id of the result it delivers (the event's own Id attribute is the
+	// annealer's construction-time id, the same for every run)
+	pid := ""
+	if v, ok := e.Attribute("CompressedModel").(marchive.CompressedModelState); ok {
+		pid = v.Id()
+	}
+	if v, ok := e.Attribute("ModelArchive").(marchive.NonDominanceModelArchive); ok {
+		pid = v.Id()
+	}
+	if pid == p.designated {
+		if p.asError {
 			panic(errors.New("injected failure of one run"))
 		}
 		panic("injected failure of one run")
 	}
-	f.Explorer.TryRandomChange()
+}
+
+// ---------------------------------------------------------------- deterministic seeding
+
+var cremRandType = reflect.TypeOf(cremrand.Rand{})
+
+func seedFor(runID string, k int) int64 {
+	h := fnv.New64a()
+	h.Write([]byte(runID))
+	return int64(h.Sum64()>>1) + int64(k)*1000003
+}
+
+// reseedAll replaces every crem rand.Rand reachable from root (by value in a struct, or behind a
+// pointer) by a generator seeded from (runID, k), k = position in a traversal that follows struct
+// fields in declaration order, slices by index and maps by sorted key text.  The generators are
+// overwritten in place through their addresses (package unsafe; harness side only, crem is unchanged).
+func reseedAll(root interface{}, runID string) int {
+	seen := map[uintptr]bool{}
+	done := map[uintptr]bool{}
+	k := 0
+	var visit func(v reflect.Value, depth int)
+	visit = func(v reflect.Value, depth int) {
+		if !v.IsValid() || depth > 64 {
+			return
+		}
+		switch v.Kind() {
+		case reflect.Interface:
+			if !v.IsNil() {
+				visit(v.Elem(), depth+1)
+			}
+		case reflect.Ptr:
+			if v.IsNil() || seen[v.Pointer()] {
+				return
+			}
+			seen[v.Pointer()] = true
+			// what the runs share (notifier with its observers, saver, loggers) is not a run's own: left alone
+			if et := v.Type().Elem().String(); strings.HasPrefix(et, "observer.") || strings.HasPrefix(et, "loggers.") ||
+				strings.HasPrefix(et, "scenario.") || strings.HasPrefix(et, "main.") || strings.HasPrefix(et, "log.") || strings.HasPrefix(et, "os.") {
+				return
+			}
+			visit(v.Elem(), depth+1)
+		case reflect.Struct:
+			if v.Type() == cremRandType {
+				if v.CanAddr() && !done[v.UnsafeAddr()] {
+					done[v.UnsafeAddr()] = true
+					*(*cremrand.Rand)(unsafe.Pointer(v.UnsafeAddr())) = *cremrand.New(rand.NewSource(seedFor(runID, k)))
+					k++
+				}
+				return
+			}
+			for i := 0; i < v.NumField(); i++ {
+				visit(v.Field(i), depth+1)
+			}
+		case reflect.Slice:
+			if v.IsNil() || !elemMayPoint(v.Type().Elem()) {
+				return
+			}
+			for i := 0; i < v.Len(); i++ {
+				visit(v.Index(i), depth+1)
+			}
+		case reflect.Array:
+			if !elemMayPoint(v.Type().Elem()) {
+				return
+			}
+			for i := 0; i < v.Len(); i++ {
+				visit(v.Index(i), depth+1)
+			}
+		case reflect.Map:
+			if v.IsNil() || seen[v.Pointer()] {
+				return
+			}
+			seen[v.Pointer()] = true
+			type kv struct {
+				k string
+				v reflect.Value
+			}
+			var kvs []kv
+			iter := v.MapRange()
+			for iter.Next() {
+				kvs = append(kvs, kv{keyString(iter.Key()), iter.Value()})
+			}
+			sort.Slice(kvs, func(i, j int) bool { return kvs[i].k < kvs[j].k })
+			for _, e := range kvs {
+				visit(e.v, depth+1) // map values are not addressable: generators stored BY VALUE in a map would be missed (none today)
+			}
+		}
+	}
+	visit(reflect.ValueOf(root), 0)
+	return k
 }
 
 // the wrapper must stay an event notifier so that Runner.wireObservers treats it like the real one
@@ -290,6 +471,9 @@ type childResult struct {
 	WallMs     int64  `json:"wall_ms"`
 	CwdBefore  string `json:"cwd_before"`
 	CwdAfter   string `json:"cwd_after"`
+	// the before/after content comparison of everything reachable from the configured annealer
+	SharedNodes int    `json:"shared_nodes"`
+	WalkError   string `json:"walk_error,omitempty"`
 }
 
 func buildScenarioFromToml(tomlPath string) (*cfginterp.ConfigInterpreter, error) {
@@ -335,21 +519,45 @@ func multiRunChild(c *Ctx) {
 	}
 	res.Built = true
 	ann := in.VerifAnnealer()
-	if k.Kind == "fault" {
-		installFault(ann, k)
+	var armed *int32
+	if k.Kind == "fault" || k.Seeded {
+		armed = installFault(ann, k)
+	}
+	if k.Kind == "fault" && k.Site == "finish" {
+		must(ann.AddObserverAsFirst(&finishPanicker{designated: designatedID(k), asError: k.AsError}))
 	}
 	ef, err := os.OpenFile(filepath.Join(c.Out, "events.log"), os.O_CREATE|os.O_WRONLY|os.O_APPEND, 0o644)
 	must(err)
 	rec := &runRecorder{f: ef}
 	must(ann.AddObserverAsFirst(rec))
+	if armed != nil {
+		atomic.StoreInt32(armed, 1)
+	}
 	writeRes() // "built, not yet returned": what the parent sees if the process dies inside Run()
+
+	// everything the runs can share is reachable from the configured annealer (a clone reaches either
+	// objects DeepClone made for it or objects the template reaches): its content before ...
+	var g0 *walkGraph
+	var before graphSnapshot
+	if p := protect(func() { g0 = walkFrom(ann); before = snapshotGraph(g0) }); p != "" {
+		res.WalkError = clip(p, 300)
+		g0 = nil
+	}
 
 	if k.Markers {
 		os.Chdir(markerBegin) // does not exist: fails, but shows in the strace output
 	}
 	t0 := time.Now()
 	var runErr error
-	p := protect(func() { runErr = in.Scenario().Run() })
+	p := protect(func() {
+		if k.Solo > 0 {
+			if !scenario.VerifRunSingle(in.Scenario(), uint64(k.Solo)) {
+				panic("scenario is not driven by a *scenario.Runner")
+			}
+			return
+		}
+		runErr = in.Scenario().Run()
+	})
 	res.WallMs = time.Since(t0).Milliseconds()
 	if k.Markers {
 		os.Chdir(markerEnd)
@@ -364,14 +572,37 @@ func multiRunChild(c *Ctx) {
 	}
 	res.CwdAfter, _ = os.Getwd()
 	ef.Close()
+	// ... and after: every node whose content differs was written during Run()
+	if g0 != nil {
+		if p := protect(func() {
+			written := diffSnapshots(g0, before, snapshotGraph(g0))
+			res.SharedNodes = len(g0.order)
+			out, _ := json.MarshalIndent(written, "", " ")
+			os.WriteFile(filepath.Join(c.Out, "written.json"), out, 0o644)
+		}); p != "" {
+			res.WalkError = clip(p, 300)
+		}
+	}
 	writeRes()
 }
 
-func installFault(ann annealing.Annealer, k mrCase) {
-	designated := k.Name
+func designatedID(k mrCase) string {
 	if k.Runs > 1 {
-		designated = fmt.Sprintf("%s (%d/%d)", k.Name, k.Designated, k.Runs)
+		return fmt.Sprintf("%s (%d/%d)", k.Name, k.Designated, k.Runs)
 	}
-	fe := &faultExplorer{Explorer: ann.SolutionExplorer(), clones: new(int64), designated: designated, at: k.At, asError: k.AsError}
+	return k.Name
+}
+
+func installFault(ann annealing.Annealer, k mrCase) *int32 {
+	site := ""
+	if k.Kind == "fault" {
+		site = k.Site
+		if site == "" {
+			site = "step"
+		}
+	}
+	fe := &faultExplorer{Explorer: ann.SolutionExplorer(), clones: new(int64), armed: new(int32), designated: designatedID(k),
+		site: site, at: k.At, asError: k.AsError, seeded: k.Seeded}
 	must(ann.SetSolutionExplorer(fe))
+	return fe.armed
 }
